@@ -17,6 +17,11 @@ def cmp_field(name, iv, mv):
     if name in ("pay", "rake", "pnl"):
         if iv is None or mv is None or iv == "!" or isinstance(mv, str):
             return (iv is None and mv is None) or (iv == "!" and isinstance(mv, str))
+        if name == "pnl":
+            # pnl = payout + stack - starting stack is computed in floats: its rounding error is relative to the largest
+            # figure in that sum (a ten-digit stack), not to the result (which may be a third of a chip)
+            scale = max([1.0] + [abs(float(x)) for x in iv] + [abs(float(core.unrat(y))) for y in mv])
+            return len(iv) == len(mv) and all(abs(float(x) - float(core.unrat(y))) <= 1e-9 * scale for x, y in zip(iv, mv))
         return len(iv) == len(mv) and all(eq_num(x, y) for x, y in zip(iv, mv))
     if name in ("toCall", "minBet", "maxBet", "closed"):
         if iv == "!" or isinstance(mv, str):
@@ -210,7 +215,11 @@ class PokerProp(Prop):
             ow = [fd] + ow
         if io.get("resume_exc"):
             ow = ["the constructor refused the serialisable fields of a reachable in-progress state: " + io["resume_exc"]] + ow
+        if io.get("hostile_diff"):
+            ow = [io["hostile_diff"]] + ow
         key, tags = self.key_tags(case, evs)
+        if case.get("hostile"):
+            tags = list(tags) + ["caller-edits-results"]
         if io.get("fork"):
             tags = list(tags) + ["forked"]
         return Verdict(not cw, not ow, " ;; ".join([w[:500] for w in (ow[:6] + cw[:3])]), key, tags)
